@@ -423,3 +423,61 @@ def matches_variants(prog, fn, sbb, adt):
                 return None
             true_vars |= got
     return true_vars
+
+
+def taken_variants(prog, fn, sbb, taken, adt):
+    """variant names of enum `adt` that flow through the `taken` labels of the discriminant switch at sbb"""
+    a = prog.adts.get(adt)
+    if a is None:
+        return None
+    lab = {v for v, x in fn.term(sbb)["arms"]}
+    names = set()
+    for v in a["variants"]:
+        key = v["discr"] if v["discr"] in lab else "otherwise"
+        if key in taken:
+            names.add(v["name"])
+    return names
+
+
+def guard_facts(prog, fn, bb):
+    """normalised list of dominating conditions of block bb:
+       ('variant', place-proj-tuple, adt, frozenset(variant names))
+       ('call', callee name, bool truth value on the path, Call)
+       ('matches', adt, frozenset(variants), bool)
+       ('local', local, truth)   ('bin', op, truth, rv)"""
+    out = []
+    for (sb, taken) in guards(fn, bb):
+        cd = cond_of(fn, sb)
+        side = bool_true_labels(taken)
+        if cd.kind == "discr" and cd.adt in prog.adts:
+            vs = taken_variants(prog, fn, sb, taken, cd.adt)
+            out.append(("variant", _proj_names(cd.place), cd.adt, frozenset(vs), cd.place["l"]))
+            continue
+        if cd.kind == "discr":
+            # std enums (Option/Result): labels as they are
+            out.append(("stdvariant", cd.adt, frozenset(taken), cd.place))
+            continue
+        mv = None
+        if cd.kind == "local":
+            for adt in ("minijinja::value::ValueKind", "minijinja::utils::AutoEscape", "minijinja::value::ValueRepr",
+                        "minijinja::utils::UndefinedBehavior", "minijinja::value::object::ObjectRepr",
+                        "minijinja::value::UndefinedType", "minijinja::value::StringType"):
+                mv = matches_variants(prog, fn, sb, adt)
+                if mv is not None:
+                    if side is not None:
+                        out.append(("matches", adt, frozenset(mv), side != cd.neg, sb))
+                    break
+        if mv is not None:
+            continue
+        if side is None:
+            continue
+        truth = side != cd.neg
+        if cd.kind == "call":
+            if cd.call.name.endswith("::ne"):
+                truth = not truth
+            out.append(("call", cd.call.name, truth, cd.call))
+        elif cd.kind == "bin":
+            out.append(("bin", cd.rv["op"], truth, cd.rv))
+        elif cd.kind == "local":
+            out.append(("local", cd.place, truth, sb))
+    return out
